@@ -292,9 +292,9 @@ fn runs_for(id: &str, tier: &str) -> u64 {
         ("C03", _) => 3_000_000,
         ("C04", "quick") => 150_000,
         ("C04", _) => 2_000_000,
-        ("C05", "quick") => 300_000,
+        ("C05", "quick") => 250_000,
         ("C05", _) => 10_000_000,
-        ("C06", "quick") => 250_000,
+        ("C06", "quick") => 200_000,
         ("C06", _) => 8_000_000,
         ("C12", "quick") => 400_000,
         ("C12", _) => 30_000_000,
